@@ -320,7 +320,11 @@ func (g *Gen) genAction(self string) *Action {
 		// an assignment whose target may not exist: element out of range, field behind a nil pointer
 		e, _ := g.genInt(1)
 		var t *Path
-		switch g.pick(3) {
+		switch g.pick(5) {
+		case 3:
+			// a selector on a place that is no collection: the assignment must fail like a read of it does
+			t = P([]string{"F.Z", "F.S", "F.P"}[g.pick(3)]).With(Step{Sel: CI(0), SelT: "i"})
+			return &Action{Kind: "asg", Path: t, Form: "=", E: e}
 		case 0:
 			off := int64(2)
 			if g.dynArr {
